@@ -96,6 +96,28 @@ Theorem C18_queue_status_laws :
   (snd (a_step s (GetNextUnsentMessage e))
      = match sort_by dn_created (filter (fun x => (dn_sent x =? 0)%Z) (outbox_of s e)) with m :: _ => RDowns [m] | [] => RNotFound end).
 Proof. exact message_status_laws. Qed.
+From Lospan Require Import Model.Store Proof.StoreRegistryProof.
+(* The per-device store model on which the theorems of C01-C10 are proved (Model/Store.v) and this registry describe the
+   same operations: seen on one device - its queue (queue_is) and its row (row_is) - each registry operation the pipeline
+   uses is the corresponding operation of the per-device model. *)
+Theorem C18_pipeline_storage_operations_agree :
+  forall s e st,
+  (queue_is s e st ->
+     (forall c now fc, queue_is (fst (a_step s (SetMessageSentTime e (Z.of_N c) (Z.of_N now) fc))) e (l_set_sent_time st c now fc)) /\
+     (forall fc now, queue_is (fst (a_step s (UpdateMessageAckTime e fc (Z.of_N now)))) e (l_update_ack_time st fc now)) /\
+     queue_is (fst (a_step s (ResetActiveAcks e))) e (l_reset_active_acks st) /\
+     snd (a_step s (GetNextUnsentMessage e)) = match l_get_next_unsent st with Some m => RDowns [to_downm m] | None => RNotFound end) /\
+  (row_is s e st ->
+     (forall a nf kw, row_is (fst (a_step s (AdvanceFCntUp e a nf kw))) e (fst (l_advance_fup st a nf kw))) /\
+     (row_is (fst (a_step s (NextFCntDn e))) e (fst (l_next_fdn st)) /\
+      snd (a_step s (NextFCntDn e)) = match snd (l_next_fdn st) with Some c => RCnt c | None => RNotFound end) /\
+     (forall dev, row_is (fst (a_step s (UpdateDeviceState e (d_fup dev) (d_fdn dev) (d_keywarn dev)))) e (fst (l_update_device_state st dev)))).
+Proof.
+  intros s e st. split; intros H.
+  - split; [intros; now apply set_sent_time_agrees|]. split; [intros; now apply update_ack_time_agrees|].
+    split; [now apply reset_active_acks_agrees | now apply next_unsent_agrees].
+  - split; [intros; now apply advance_fup_agrees|]. split; [now apply next_fdn_agrees | intros; now apply update_device_state_agrees].
+Qed.
 Theorem C18_one_device_per_eui : forall s o, unique_devs s -> unique_devs (fst (a_step s o)).
 Proof. exact one_device_per_eui. Qed.
 Theorem C18_each_operation_writes_its_own_table :
@@ -137,3 +159,4 @@ Print Assumptions C18_advance_answers_ok_iff_not_passed.
 Print Assumptions C18_next_is_fetch_and_increment.
 Print Assumptions C18_queue_laws.
 Print Assumptions C18_queue_status_laws.
+Print Assumptions C18_pipeline_storage_operations_agree.
